@@ -340,4 +340,17 @@ def r05_5_exit_code(repo: Repo, rep: Report):
         rep.check("R05.5", ok, mm, h, "run_contract: setUp failure -> return []  (all found tests count as failed)", "setUp failure must yield no passing results")
 
 
-RULES = [r05_1_pass_dominance, r05_2_precedence, r05_3_failure_mapping, r05_4_order_independence, r05_5_exit_code]
+def r05_6_shared(repo: Repo, rep: Report):
+    """stuck-path confirmation (keep unless unsat) and soundness of the solver-free `unsat` from the core cache"""
+    from hsa.rules.c16 import r16_1_core_recording, r16_2_subset_test
+    from hsa.rules.verdicts import check_verdict_sites
+
+    rep.rule("R02.1", "stuck-path / setUp filters keep a path unless the solver says unsat (shared with C02)")
+    check_verdict_sites(repo, rep, "R02.1", modules=("__main__",), only_functions={"__main__.run_test", "__main__.setup"})
+    rep.rule("R16.1", "cores recorded only for unsat with a non-empty core (shared with C16)")
+    rep.rule("R16.2", "cache hit needs all ids of a core (shared with C16)")
+    r16_1_core_recording(repo, rep)
+    r16_2_subset_test(repo, rep)
+
+
+RULES = [r05_1_pass_dominance, r05_2_precedence, r05_3_failure_mapping, r05_4_order_independence, r05_5_exit_code, r05_6_shared]
